@@ -51,6 +51,7 @@ type gen struct {
 	// pipelines that contain a map call, directly or through sub-pipelines
 	hasMap map[string]bool
 	disabledCalls map[string]bool
+	pfStage *StageDef
 }
 
 func (g *gen) name(prefix string) string {
@@ -411,6 +412,30 @@ func (g *gen) genPipeline(last bool) {
 	}
 	ncalls := 1 + g.pick(g.cfg.MaxCalls)
 	used := map[string]int{}
+	if g.cfg.Preflight && g.pick(3) == 0 {
+		// a preflight stage: no outputs, bound to pipeline inputs or literals only;
+		// every other call of this pipeline (and of its sub-pipelines) waits for it
+		if g.pfStage == nil {
+			g.pfStage = &StageDef{Name: g.name("PFST"), SrcKind: "comp",
+				Ins: []Field{{"p0", Ty{Base: "int"}}, {"p1", Ty{Base: "string"}}}}
+			g.p.Stages = append(g.p.Stages, g.pfStage)
+		}
+		c := &CallDef{Callee: g.pfStage.Name, Id: g.pfStage.Name, Preflight: true, Local: g.pick(2) == 0}
+		for _, p := range g.pfStage.Ins {
+			var e *Expr
+			for _, a := range env {
+				if a.t == p.T && g.pick(2) == 0 {
+					e = a.e
+				}
+			}
+			if e == nil {
+				e = g.lit(p.T)
+			}
+			c.Binds = append(c.Binds, Bind{p.Name, e, false})
+		}
+		used[c.Callee]++
+		pl.Calls = append(pl.Calls, c)
+	}
 	disabledCalls := map[string]bool{}
 	g.disabledCalls = disabledCalls
 	havePreflight := false
@@ -421,6 +446,9 @@ func (g *gen) genPipeline(last bool) {
 			callee = g.p.Pipelines[g.pick(len(g.p.Pipelines))].Name
 		} else {
 			callee = g.p.Stages[g.pick(len(g.p.Stages))].Name
+			if g.pfStage != nil && callee == g.pfStage.Name {
+				callee = g.p.Stages[0].Name
+			}
 		}
 		ins, _, isStage := g.p.CalleeSig(callee)
 		c := &CallDef{Callee: callee, Id: callee}
